@@ -42,6 +42,8 @@ import itertools
 import json
 import logging
 import multiprocessing
+import os
+import signal
 import socket
 import time
 from enum import Enum
@@ -293,15 +295,23 @@ class Scheduler:
         tasks = {self.tasks[tid] for tid in tids}
         await asyncio.wait(tasks, timeout=timeout)
 
+    def _signal_task(self, proc, sig):
+        # The task's shell is the leader of its own session (see below), so
+        # signalling its process group also reaches the processes it started.
+        try:
+            os.killpg(proc.pid, sig)
+        except ProcessLookupError:
+            pass
+
     async def _gentle_kill(self, proc):
         if proc is None:
             return
 
-        proc.kill()
+        self._signal_task(proc, signal.SIGKILL)
         await asyncio.sleep(1)
         if proc.returncode is None:
             await asyncio.sleep(10)
-            proc.terminate()
+            self._signal_task(proc, signal.SIGTERM)
         await proc.wait()
 
     async def try_handle_task(self, tid, name, script, working_dir, time_limit, deps):
@@ -327,6 +337,7 @@ class Scheduler:
                 stdout=asyncio.subprocess.PIPE,
                 stderr=asyncio.subprocess.PIPE,
                 cwd=working_dir,
+                start_new_session=True,
             )
             try:
                 logger.debug("task starting")
